@@ -25,7 +25,8 @@ Theorem C14_strict : forall cur ups ok e n0 n,
 Proof. exact strict. Qed.
 Print Assumptions C14_strict.
 
-(* any number of concurrent pickers, any schedule: the picks in the order of their atomic adds are the
+(* any number of concurrent pickers, any schedule of their two shared accesses (the atomic get-or-create
+   of the counter, then the atomic add): the picks in the order of their atomic adds are the
    sequential round-robin sequence, the goroutines' picks partition it, and after T picks every
    position has floor(T/k) or ceil(T/k) of them *)
 Theorem C14_concurrent : forall k c0 picks sched j,
@@ -97,6 +98,7 @@ Example C14_wrap_nonvacuous :
 Proof. vm_compute. reflexivity. Qed.
 
 Example C14_concurrent_nonvacuous :
-  let st := run (pstep 3) (pinit 0 [2; 2]%nat) [1; 0; 0; 1]%nat in
+  (* both pickers reach the map access before either proceeds, on a counter that does not exist yet *)
+  let st := run (pstep 3) (pinit 0 [2; 2]%nat) [0; 1; 1; 0; 0; 0; 1; 1]%nat in
   rev (plog (fst st)) = [1; 2; 0; 1] /\ map (fun t => rev (got t)) (snd st) = [[2; 0]; [1; 1]].
 Proof. vm_compute. split; reflexivity. Qed.
